@@ -262,6 +262,8 @@ def unit_fit_model(prop, tier=None, seed=None):
     KW = ["weight_cp", "model_key", "range_x", "params_initial"]
 
     def setup(I):
+        st.pop("fitter_kwargs", None)
+        st.pop("guesses", None)
         fp, vals, pres, fpd, res = F.sym_fp(I, "old")
         idnt, cls = _mk_indentation(I, fp)
         objmap = {id(v.obj): v for v in vals.values()}
@@ -408,6 +410,7 @@ def unit_rate_quality(prop, tier=None, seed=None):
     REG = ["none", "None", "NONE", "Extra Trees", "Random Forest"]
 
     def setup(I):
+        st.pop("rate_datasets", None)
         fp, vals, pres, fpd, res = F.sym_fp(I, "old")
         hash0 = SAtom(z3.Int("old_hash_value"))
         if "hash" in fp.map.d:
